@@ -51,7 +51,9 @@ def run(out):
     for _ in range(1500 if out.tier == 'quick' else 100000):
         cases.append(pc.random_pops(rng))
     qcases = [pc.random_qops(rng) for _ in range(1500 if out.tier == 'quick' else 100000)]
-    jobs = pc.chunk_jobs(cases, 'pops', pc.COMP_POPS) + pc.chunk_jobs(qcases, 'qops', pc.COMP_QOPS)
+    icases = [pc.random_iops(rng) for _ in range(1500 if out.tier == 'quick' else 100000)]
+    icases += [[0, 3, 0x90, 1, 2, 0, 3, 0x90, 3, 4, 6, 7, 2, 7, 7], [6, 7, 0, 3, 0x90, 1, 2, 7, 6, 7], [0, 3, 0x90, 1, 2, 6, 7, 0, 3, 0x91, 1, 2, 7, 7, 7]]
+    jobs = pc.chunk_jobs(cases, 'pops', pc.COMP_POPS) + pc.chunk_jobs(qcases, 'qops', pc.COMP_QOPS) + pc.chunk_jobs(icases, 'iops', pc.COMP_IOPS)
     for tag, rec in core.pmap(pc.job, jobs):
         core.merge_into(out, rec, tag)
     # Parser(data) constructor path and parse()
@@ -71,8 +73,9 @@ def run(out):
             out.failures.append(('ctor-raises', 'Parser(%r) raised %r' % (s, e), {'component': 'ctor', 'case': s}))
     out.evaluations += n
     out.components['ctor (implementation-only)'] = {'cases': n}
+    out.extra['live_iterator_histories'] = len(icases)
     out.rule = ('operation histories on a real Parser (feed with list/bytes/bytearray, feed_byte, get_message, pending, list(parser), '
-                'partial iteration) compared step by step with the model, final queue included: for %d random streams every 2-way '
+                'partial iteration; and histories in which one iterator is kept alive across feeds, get_message calls and other iterations) compared step by step with the model, final queue included: for %d random streams every 2-way '
                 'split, byte-at-a-time feeding, mixed feed/feed_byte and random interleavings; concatenated messages cut at every '
                 'offset; random histories; ParserQueue histories (put_bytes, put, poll, iterpoll). Oracle on the implementation: '
                 'retrieved + pending == parse_all(all fed), pending() == number retrievable, get_message() is None iff pending()==0. '
